@@ -1,10 +1,177 @@
-(* C12 — property theorems (placeholder while the pipeline is brought up). *)
-From Coq Require Import ZArith List Bool.
+(* C12 — logical channels are isolated and correctly routed under concurrency.  Property theorems only.
+
+   Models: C12/Model.v (routing over the channel map, allocation/registration under the map lock as atomic steps,
+   the writes of several channels on one transport, the setup handshake) on top of the receive path of one channel
+   (Rx/Model.v: rx_packet / rx_run) and the send path of one channel (C01/Model.v).  They are compared with
+   tds/conn.go + tds/channel.go on every run (sequential interleavings, recorded concurrent histories). *)
+From Coq Require Import ZArith List Bool Lia.
 Import ListNotations.
-From V Require Import Base.Tree C12.Model C12.Spec.
+From V Require Import Base.Tree Base.Bytes Gen.GenPkg Rx.Model C15.Model Gen.GenC01 C01.Model C01.Spec C01.Proofs
+  Gen.GenC12 C12.Model C12.Spec C12.Proofs C12.ProofsTx.
 Open Scope Z_scope.
 
+(* (1) Routing, frame property.  For EVERY sequence of received packets and closes of other channels — any
+   interleaving of the packets of any number of channels, registered or not — the events channel id sees, packet by
+   packet, are exactly those of the receive path of one channel run on the subsequence of packets addressed to id,
+   and its receive state afterwards is that run's state: nothing another channel receives or does can be observed. *)
+Theorem C12_routing : forall need nenv os m id st,
+  cm_find id m = Some st ->
+  existsb (closes id) os = false ->
+  events_of id (fst (route_ops need nenv m os)) = fst (rx_run need nenv st (pkts_for id os)) /\
+  cm_find id (snd (route_ops need nenv m os)) = Some (snd (rx_run need nenv st (pkts_for id os))).
+Proof. exact routing_frame. Qed.
+
+(* (2) A packet for an id that is not registered: exactly one connection error naming the id, no channel state
+   changes; after a channel is closed its id is such an id. *)
 Theorem C12_unknown_channel : forall need nenv m p, cm_find (pkt_chan p) m = None ->
   route need nenv m p = (RInvalid (pkt_chan p), m).
-Proof. intros need nenv m p H. unfold route. rewrite H. reflexivity. Qed.
+Proof. exact unknown_channel. Qed.
+
+Theorem C12_closed_channel_unknown : forall need nenv m id p, pkt_chan p = id ->
+  route need nenv (snd (route_op need nenv m (OClose id))) p = (RInvalid id, snd (route_op need nenv m (OClose id))).
+Proof. exact closed_then_unknown. Qed.
+
+(* (3) Distinct ids, for EVERY schedule: any list of steps by any threads (a step of a thread that does not hold the
+   map lock while another does is blocked).  All ids handed out by NewChannel calls so far are pairwise distinct and
+   lie in 0..65535, so does every registered id; an id is not registered at the moment it is inserted. *)
+Theorem C12_ids_distinct : forall ls,
+  NoDup (map snd (got (arun ls))) /\
+  (forall t x, In (t, x) (got (arun ls)) -> 0 <= x <= max_chan) /\
+  (forall x, In x (amap (arun ls)) -> 0 <= x <= max_chan).
+Proof. exact ids_distinct. Qed.
+
+Theorem C12_id_fresh_at_registration : forall ls t cur,
+  holder (arun ls) = Some (t, PFree cur) -> ~ In cur (amap (arun ls)).
+Proof. exact insert_fresh. Qed.
+
+Theorem C12_lock_excludes : forall s t h pc, holder s = Some (h, pc) -> t <> h ->
+  astep s (ANew t) = s /\ forall k, astep s (AClose t k) = s.
+Proof. exact blocked_while_held. Qed.
+
+(* the same steps without the lock (the code before commit c9b3921): two creators read the same counter value *)
+Example C12_ids_unlocked_refuted :
+  ugot (fold_left ustep [1; 2; 1; 2; 1; 2; 1; 2] uinit) = [(2, 0); (1, 0)].
+Proof. vm_compute. reflexivity. Qed.
+
+(* (4) Outgoing packets.  Channels with pairwise distinct ids > 0, each performing its own sequence of writes (SETUP,
+   any messages, optionally the teardown); `log` is ANY interleaving of these sequences (every write tagged with the
+   channel that performed it; the writes tagged i are channel i's, in order).  Then selecting the packets whose HEADER
+   carries id_i yields exactly channel i's writes, and in them the k-th packet carries the number k mod 256
+   (numbering_ok), the first being the header-only SETUP packet. *)
+Theorem C12_tx_numbering : forall (cs : list chan_life) (log : list (nat * bytes)),
+  Forall life_wf cs -> NoDup (map cl_id cs) ->
+  (forall i c, nth_error cs i = Some c -> exists ws, life_writes c = Some ws /\ writes_of_thread i log = ws) ->
+  (forall e, In e log -> (fst e < length cs)%nat) ->
+  forall i c, nth_error cs i = Some c ->
+  exists ws, life_writes c = Some ws /\
+    filter (fun w => log_chan w =? cl_id c) (map snd log) = ws /\
+    numbering_ok (cl_id c) 0 ws = true /\
+    exists w0 rest, ws = w0 :: rest /\ log_type w0 = buf_setup /\ log_body w0 = [].
+Proof.
+  intros cs log Hwf Hnd Hint Hdom i c Hi.
+  set (f := fun c0 => match life_writes c0 with Some ws => ws | None => [] end).
+  assert (Hlen : forall j c0, nth_error cs j = Some c0 -> (j < length cs)%nat).
+  { intros j c0 H. apply nth_error_Some. congruence. }
+  assert (Hwfc : forall j c0, nth_error cs j = Some c0 -> life_wf c0).
+  { intros j c0 H. rewrite Forall_forall in Hwf. apply Hwf. eapply nth_error_In. exact H. }
+  assert (Hnth : forall j c0, nth_error cs j = Some c0 ->
+            nth j (map cl_id cs) (-1) = cl_id c0 /\ nth j (map f cs) [] = f c0).
+  { intros j c0 H. split.
+    - erewrite nth_indep by (rewrite map_length; eapply Hlen; exact H).
+      rewrite (map_nth cl_id cs c0 j). f_equal. apply nth_error_nth. exact H.
+    - erewrite nth_indep by (rewrite map_length; eapply Hlen; exact H).
+      rewrite (map_nth f cs c0 j). f_equal. apply nth_error_nth. exact H. }
+  assert (Hex : forall j, (j < length (map cl_id cs))%nat -> exists c0, nth_error cs j = Some c0).
+  { intros j Hj. rewrite map_length in Hj. destruct (nth_error cs j) as [c0|] eqn:E; [eexists; reflexivity|].
+    apply nth_error_None in E. lia. }
+  destruct (life_numbering c (Hwfc i c Hi)) as [ws [Ews [Hnum Hfirst]]].
+  exists ws. split; [exact Ews|]. split; [|split; [exact Hnum | exact Hfirst]].
+  destruct (Hnth i c Hi) as [Hid Hws].
+  rewrite <- Hid.
+  rewrite (demux (map cl_id cs) (map f cs) log Hnd).
+  - rewrite Hws. unfold f. rewrite Ews. reflexivity.
+  - intros j Hj. destruct (Hex j Hj) as [c0 Hc0]. destruct (Hint j c0 Hc0) as [ws0 [E0 W0]].
+    destruct (Hnth j c0 Hc0) as [_ Hw]. rewrite Hw. unfold f. rewrite E0. exact W0.
+  - intros e I. rewrite map_length. exact (Hdom e I).
+  - intros j w Hj I. destruct (Hex j Hj) as [c0 Hc0].
+    destruct (Hnth j c0 Hc0) as [Hidj Hw]. rewrite Hw in I. rewrite Hidj.
+    destruct (life_numbering c0 (Hwfc j c0 Hc0)) as [ws0 [E0 [N0 _]]].
+    unfold f in I. rewrite E0 in I.
+    pose proof (numbering_chan (cl_id c0) ws0 0 N0) as Hall. rewrite Forall_forall in Hall.
+    rewrite (Hall w I). destruct (Hwfc j c0 Hc0) as [[Hpos _] _].
+    replace (0 <? cl_id c0) with true by (symmetry; apply Z.ltb_lt; lia). reflexivity.
+  - rewrite map_length. eapply Hlen. exact Hi.
+Qed.
+
+(* the packets one channel writes for a history of messages alone: C01's well-formedness, the id everywhere,
+   consecutive numbers, and the counter afterwards (what C12_tx_numbering uses per channel) *)
+Theorem C12_channel_numbering : forall chan, 0 <= chan < 65536 -> forall ms st outs st',
+  Forall msg_wf ms -> 0 <= tnr st < 256 -> tq st = empty_pq ->
+  send_history chan ms st = Some (outs, st') ->
+  history_ok chan (tnr st) ms outs = true /\
+  numbering_ok chan (tnr st) (concat outs) = true /\
+  tnr st' = (if 0 <? chan then (tnr st + zlen (concat outs)) mod 256 else tnr st).
+Proof.
+  intros chan Hc ms st outs st' Hwf Hnr Hq E.
+  destruct (history_counter chan Hc ms st outs st' Hwf Hnr Hq E) as [Hok [_ [_ Hcnt]]].
+  split; [exact Hok|]. split; [|exact Hcnt].
+  apply (history_ok_numbering chan ltac:(lia) ms). exact Hok.
+Qed.
+
+(* (5) NewChannel for an id > 0 writes exactly the header-only SETUP packet carrying the id and number 0, then waits:
+   a header-only packet is delivered to the channel as such (the receive path does not touch its state); the call
+   succeeds when the first thing that arrives for the channel is the PROTACK header-only packet, fails on anything
+   else that is not a header-only packet with the PROTACK bits, and waits (until the connection context is cancelled)
+   while nothing arrives. *)
+Theorem C12_setup_ack : forall ps id, 9 <= ps -> 0 < id < 65536 ->
+  setup_write ps id = Some (header_bytes buf_setup eom_bit 8 id 0 0) /\
+  (forall need nenv st p, p_len p = c_hdr_size -> rx_packet need nenv st p = ([EvHeaderOnly (p_hdr p)], st)) /\
+  (forall rest, new_channel_wait (AHeaderOnly buf_protack :: rest) = NcOk) /\
+  new_channel_wait [] = NcWaits /\
+  (forall a rest, (forall typ, a = AHeaderOnly typ -> is_protack typ = false) -> new_channel_wait (a :: rest) = NcError).
+Proof.
+  intros ps id Hps Hid. split; [apply setup_write_bytes; assumption|].
+  split.
+  - intros need nenv st p H. unfold rx_packet. rewrite H, Z.eqb_refl. reflexivity.
+  - split; [intros rest; apply setup_ack_ok; reflexivity|]. split; [exact setup_waits | exact setup_fails].
+Qed.
+
+(* ---- non-vacuity *)
+
+(* two channels (ids 1 and 256), packets interleaved, one packet for an unknown id, channel 256 closed in between:
+   channel 1 sees exactly its own two header-only packets *)
+Example C12_routing_example :
+  let hdr c := TL [TI 11; TI 1; TI 8; TI c; TI 0; TI 0] in
+  let pkt c := {| p_hdr := hdr c; p_len := 8; p_eom := true; p_body := [] |} in
+  let os := [OPkt (pkt 1); OPkt (pkt 256); OPkt (pkt 7); OClose 256; OPkt (pkt 256); OPkt (pkt 1)] in
+  let m := [(1, rx_init); (256, rx_init)] in
+  fst (route_ops 0 0 m os) =
+    [RTo 1 [EvHeaderOnly (hdr 1)]; RTo 256 [EvHeaderOnly (hdr 256)]; RInvalid 7; RClosed 0; RInvalid 256; RTo 1 [EvHeaderOnly (hdr 1)]] /\
+  events_of 1 (fst (route_ops 0 0 m os)) = fst (rx_run 0 0 rx_init (pkts_for 1 os)).
+Proof. vm_compute. split; reflexivity. Qed.
+
+(* three creators and a closer in an arbitrary interleaving: blocked steps are no-ops, ids 0, 1, 2 *)
+Example C12_allocation_example :
+  let ls := [ANew 1; ANew 2; ANew 1; ANew 3; ANew 1; ANew 1; ANew 2; ANew 1; ANew 1;
+             ANew 2; ANew 2; ANew 2; ANew 3; ANew 2; ANew 2; ANew 2; AClose 1 0; ANew 3; AClose 1 0; AClose 1 0;
+             ANew 3; ANew 3; ANew 3; ANew 3; ANew 3; ANew 3] in
+  got (arun ls) = [(3, 2); (2, 1); (1, 0)] /\ amap (arun ls) = [2; 1] /\ holder (arun ls) = None.
+Proof. vm_compute. repeat split; reflexivity. Qed.
+
+(* a logical channel with id 257, packet size 16, one message of 10 bytes, then closed: SETUP nr 0, two data packets
+   nr 1 and 2, teardown nr 3 *)
+Example C12_life_example :
+  life_writes {| cl_id := 257; cl_ps := 16; cl_msgs := [{| m_ps := 16; m_typ := 15; m_pkgs := [[[1;2;3;4;5;6;7;8;9;10]]] |}]; cl_close := true |}
+  = Some [[8;1;0;8;1;1;0;0]; [15;0;0;16;1;1;1;0;1;2;3;4;5;6;7;8]; [15;1;0;10;1;1;2;0;9;10];
+          [9;1;0;16;1;1;3;0;0;0;0;0;0;0;0;0]].
+Proof. vm_compute. reflexivity. Qed.
+
+Print Assumptions C12_routing.
 Print Assumptions C12_unknown_channel.
+Print Assumptions C12_closed_channel_unknown.
+Print Assumptions C12_ids_distinct.
+Print Assumptions C12_id_fresh_at_registration.
+Print Assumptions C12_lock_excludes.
+Print Assumptions C12_tx_numbering.
+Print Assumptions C12_channel_numbering.
+Print Assumptions C12_setup_ack.
